@@ -1,6 +1,7 @@
 import ScriggoV.Lemmas.ExprPPMain
 import ScriggoV.Lemmas.ExprPPNorm
 import ScriggoV.Spec.GoPrecedence
+import ScriggoV.Model.OpTables
 /-!
 # C27 — printing a parsed syntax tree gives source that parses back to the same tree
 
@@ -14,6 +15,13 @@ literals and function types are outside. `print` is
 operator spellings and the three parenthesisation conditions are regenerated from `ast/ast.go`
 (Gen/Precedence.lean) on every check.
 
+Operator tables (`Gen/OpTokens.lean`, `Model/OpTables.lean`): for every constant of
+`AssignmentType` and `OperatorType`, constant → text of `String()` → lexer token → constant of the
+parser's switch is the identity (`assignment_operator_roundtrip`, `binary_operator_roundtrip`,
+`unary_operator_roundtrip`), by `decide` over the whole regenerated tables; every `String` method of
+`ast.go` is classified (`string_methods_classified`). Statements themselves are round-tripped on
+the real code only (go/props/c27/stmt.go).
+
 The full statement (`FullStatement`) is false of the code today (`fullStatement_false`, witness
 `(-x0).x1`, known finding postfix-operand-parens): the model mirrors the printer as it is. On the
 sub-fragment `Plain` the round trip is proved for every tree (`roundtrip_partial`).
@@ -26,6 +34,7 @@ that is itself the result of parsing printed source (`roundtrip_exact_on_reparse
 -/
 namespace ScriggoV.Props.C27
 open ScriggoV.ExprPP ScriggoV.Gen.Precedence ScriggoV.Spec.GoPrecedence
+open ScriggoV.Gen.OpTokens ScriggoV.OpTables
 
 /-! ## the generated tables -/
 
@@ -68,6 +77,71 @@ theorem unary_spelling (u : UnOp) : (unTok u).text = u.toOp.str := by
 
 /-- the parser maps the printed token(s) of an operator back to the operator -/
 theorem unary_token_roundtrip (u : UnOp) : unaryOf (unTok u) = some u := unaryOf_unTok u
+
+/-! ## the operator tables, from the constant to printed text and back
+
+`constant ─String()→ text ─lexer→ token ─parser switch→ constant` is the identity for every
+constant of every operator enumeration of `ast.go`. All four tables are regenerated from the Go
+sources (`Gen/OpTokens.lean`, `Gen/Precedence.lean`); a constant that is added without its entries
+makes the `cases` incomplete or the `decide` false. -/
+
+/-- **Assignment operators**: what `(*Assignment).String()` writes for the constant `a` is one
+word, the lexer's token for that word is an assignment token, and `assignmentType` maps it back to
+`a` — for each of the `AssignmentType` constants, in both syntaxes. -/
+theorem assignment_operator_roundtrip (a : Assign) (template : Bool) :
+    parseAssignOp template a.printed = some a := by
+  cases a <;> cases template <;> decide
+
+/-- **Binary operators**: every `OperatorType` constant that has a precedence (`BinaryOperator`)
+is printed by `OperatorType.String()` as one or two words whose tokens make `parseExpr` build a
+`BinaryOperator` with that very constant. -/
+theorem binary_operator_roundtrip (op : Op) (h : (binaryPrecedence op).isSome = true) :
+    parseBinaryOp op.str = some op := by
+  cases op <;> first | (simp [binaryPrecedence] at h; done) | decide
+
+/-- **Unary operators**: every other `OperatorType` constant is printed as one word whose token makes
+`parseExpr` build a `UnaryOperator` with that constant. Together with the previous theorem: every
+constant of `OperatorType` is covered. -/
+theorem unary_operator_roundtrip (op : Op) (h : binaryPrecedence op = none) :
+    parseUnaryOp op.str = some op := by
+  cases op <;> first | (simp [binaryPrecedence] at h; done) | decide
+
+/-- the hand-written parser model maps operator tokens to operators exactly as the generated
+tables of the lexer and of `parseExpr` do (unary position) -/
+theorem unaryOf_is_source (o : OpTok) :
+    (unaryOf o).map UnOp.toOp = (lexWord true o.text).bind parseUnary := by
+  cases o <;> decide
+
+/-- … and in binary position -/
+theorem binaryOf_is_source (o : OpTok) :
+    (binaryOf o).map BinOp.toOp = (lexWord true o.text).bind parseBinary := by
+  cases o <;> decide
+
+/-- no text of the lexer tables is shadowed by an earlier entry with another token -/
+theorem lex_tables_consistent :
+    (∀ e ∈ lexEmits, lexWord false e.1 = some e.2) ∧ (∀ e ∈ keywords, lexWord false e.1 = some e.2) ∧
+    (∀ e ∈ templateKeywords, lexWord true e.1 = some e.2 ∧ lexWord false e.1 = none) := by
+  decide
+
+/-- every type of `ast.go` with a `String` method is classified: round-tripped by the expression
+streams, by the statement streams, a description by design, or not a node. A new `String` method
+has to be put into one of the lists (and the harness has to produce cases for the first two). -/
+theorem string_methods_classified :
+    ∀ n ∈ stringMethods, n ∈ roundTripExpr ∨ n ∈ roundTripStmt ∨ n ∈ notSource ∨ n ∈ notNodes := by
+  decide
+
+/-- the classification names only node types that exist and do have a `String` method -/
+theorem classification_names_exist :
+    ∀ n ∈ roundTripExpr ++ roundTripStmt ++ notSource, n ∈ nodeTypes ∧ n ∈ stringMethods := by
+  decide
+
+example : parseAssignOp false " >>= " = some .RightShift := by decide
+example : parseAssignOp false " <<= " = some .LeftShift := by decide
+example : parseAssignOp false "++" = some .Increment := by decide
+example : parseAssignOp false " >> " = none := by decide
+example : parseBinaryOp "not contains" = some .NotContains := by decide
+example : parseUnaryOp "&" = some .Address ∧ parseBinaryOp "&" = some .BitAnd := by decide
+example : lexWord false "contains" = none ∧ lexWord true "contains" = some .tokenContains := by decide
 
 /-! ## the round trip -/
 
